@@ -1,5 +1,5 @@
 #!/usr/bin/env python3
-"""tools/seeded_recheck.py [--args "--tier quick"]: re-run the intended check against every seeded/<id>/patch.diff
+"""tools/seeded_recheck.py [--args "--tier quick"] (env RECHECK_GLOB="C06-* C20-*" selects, RECHECK_PAR / RECHECK_WORKERS size it): re-run the intended check against every seeded/<id>/patch.diff
 (scratch copy only) and refresh meta.json's "check" block.  Prints a table; exit 1 if any is not caught."""
 import concurrent.futures
 import glob
@@ -39,7 +39,7 @@ def one(d):
     return os.path.basename(d), meta["check"]["verdict"], (meta["check"]["violation_lines"] or [""])[0]
 
 
-dirs = sorted(glob.glob(os.path.join(HERE, "seeded", "*-*")))
+dirs = sorted(d for pat in os.environ.get("RECHECK_GLOB", "*-*").split() for d in glob.glob(os.path.join(HERE, "seeded", pat)))
 bad = 0
 with concurrent.futures.ThreadPoolExecutor(max_workers=int(os.environ.get("RECHECK_PAR", "2"))) as ex:
     for name, verdict, line in ex.map(one, dirs):
